@@ -65,7 +65,8 @@ PROP = {
                    "thorough": {"closes_checked": 60000, "nontrivial": 40000, "nontrivial_remote-pending": 10000}},
     }, {
         "name": "resolvers", "pkg": "contractcourt", "test": "TestVerifC05CC",
-        "files": ["contractcourt/c05cc_test.go"], "exports": {"lnwallet": E1X},
+        "files": ["contractcourt/c05cc_test.go", "contractcourt/cw_common_test.go", "contractcourt/c05cw_test.go"],
+        "exports": {"lnwallet": E1X},
         "shards": {"quick": 10, "thorough": 16},
         "watchdog": {"quick": 900, "thorough": 7200},
         "floors": {"quick": {"closes_checked": 1300, "nontrivial": 900, "nontrivial_local": 350,
